@@ -1,3 +1,88 @@
-(* C16 — Items fetcher asks the right peers and does not forget pending items. (theorems to follow) *)
-From Coq Require Import NArith ZArith List.
-From LV Require Import model.Fetcher spec.FetcherSpec.
+(* C16 — Items fetcher asks the right peers and does not forget pending items.
+
+   Model: model/Fetcher.v ([step true] = the repaired gossip/itemsfetcher loop; callbacks, the random
+   peer choice and Go's map order are oracles carried by the events; time.Timer is modelled).
+   Vocabulary: spec/FetcherSpec.v ([ghost_step]/[safe_run]: who may be asked for what, kept without
+   looking at the fetcher's tables; [reachT]; [pass_pending]; [owed]).  Proofs: proofs/FetcherProofs.v. *)
+From Coq Require Import NArith ZArith List Bool.
+From LV Require Import model.Fetcher spec.FetcherSpec proofs.FetcherProofs.
+Import ListNotations.
+
+(* SAFETY, for every configuration and EVERY event sequence (any interleaving of announcements,
+   receipts, timer deliveries and passes, any oracle answers, any times): every request (peer, id)
+   goes to a peer that announced id while id was reported interesting, and id has not since been
+   reported received, nor reported uninteresting at a pass - until it is announced anew. *)
+Theorem C16_safety : forall c t0 tr, safe_run c (init t0) [] tr.
+Proof. exact fetcher_safety. Qed.
+
+(* LIVENESS as a bounded-response invariant.  (1) In every reachable state (non-decreasing clock):
+   while anything is announced, a timer pass is pending - its value is in the channel or the timer
+   is armed and due within ArriveTimeout. *)
+Theorem C16_liveness_pass_pending_partial : forall c t0 now st,
+  cfg_wf c -> reachT c t0 now st -> pass_pending c now st.
+Proof. exact fetcher_pass_pending. Qed.
+
+(* (2) Timer fairness = the runtime delivers a due timer ([ETick]) and the loop then takes it
+   ([ETimer]); the delivery step puts the value into the channel ... *)
+Theorem C16_liveness_tick_partial : forall c st now due,
+  timer_due st = Some due -> (due <= now)%Z -> timer_chan (fst (step true c st now ETick)) = true.
+Proof. exact fetcher_tick. Qed.
+
+(* (3) ... and the pass the loop then makes requests every item that is held, reported interesting,
+   announced less than ForgetTimeout ago and not requested during the last ArriveTimeout -
+   GatherSlack, from one of its recorded announcers. *)
+Theorem C16_liveness_pass_requests_partial : forall c st now interested ch scan id,
+  timer_chan st = true -> In id interested -> owed c st now id ->
+  exists p ids, In p (announcers id st) /\
+    In (p, ids) (snd (step true c st now (ETimer interested ch scan))) /\ In id ids.
+Proof. exact fetcher_pass_requests. Qed.
+
+(* (4) An announcement that is interesting, arrives while not suspended and is not being fetched is
+   requested in the same step, from the announcing peer. *)
+Theorem C16_liveness_notify_requests_partial : forall c st now peer ids atime interested scan id,
+  In id interested -> f_find id (fetching st) = None ->
+  exists l, In (peer, l) (snd (step true c st now (ENotify peer ids atime interested false scan))) /\ In id l.
+Proof. exact fetcher_notify_requests. Qed.
+
+(* The end-to-end statement these four compose to, NOT proved as one theorem: under timer fairness
+   with latency [lat], an item announced at t (reported interesting from then on, not received,
+   announcement younger than ForgetTimeout, cache not overflowing) is requested during
+   [t, t + 2*ArriveTimeout + 2*lat]. *)
+Definition timer_fair (c : cfg) (lat t0 : Z) (tr : list (Z * event)) : Prop :=
+  forall pre now ev post, tr = pre ++ (now, ev) :: post ->
+    let st := fst (run true c (init t0) pre) in
+    (forall due, timer_due st = Some due -> (now <= due + lat)%Z) /\
+    (timer_chan st = true -> exists i ch sc, ev = ETimer i ch sc).
+Definition nondecreasing (tr : list (Z * event)) : Prop :=
+  forall pre a b post, tr = pre ++ a :: b :: post -> (fst a <= fst b)%Z.
+Definition C16_full : Prop :=
+  forall c lat t0 pre t peer ids atime interested susp scan post id,
+    cfg_wf c -> (0 <= lat)%Z ->
+    let tr := pre ++ (t, ENotify peer ids atime interested susp scan) :: post in
+    nondecreasing tr -> timer_fair c lat t0 tr ->
+    In id interested ->
+    (N.of_nat (2 * length tr) <= c_hash_limit c)%N ->                       (* no eviction *)
+    (t + 2 * c_arrive c + 2 * lat - atime < c_forget c)%Z ->                (* young enough *)
+    (forall now i ch sc, In (now, ETimer i ch sc) post -> In id i) ->       (* stays interesting *)
+    (forall now l, In (now, EReceived l) post -> ~ In id l) ->              (* not received *)
+    (exists now ev, In (now, ev) post /\ (t + 2 * c_arrive c + 2 * lat < now)%Z) ->  (* the trace goes on *)
+    exists t' p l, In (t', (p, l)) (snd (run true c (init t0) tr)) /\ In id l /\
+                   (t <= t' <= t + 2 * c_arrive c + 2 * lat)%Z.
+
+(* non-vacuity of (1) and (3): a reachable state with an announced, owed item and an armed timer *)
+Example C16_nonvacuous :
+  let c := cfg_ex in
+  let st := fst (step true c (fst (step true c (fst (step true c (init 0%Z) 0%Z ETick)) 0%Z (ETimer [] [] [])))
+                      80%Z (ENotify 1%N [7%N] 80%Z [7%N] true [])) in
+  cfg_wf c /\ keys_now st = [7%N] /\ timer_due st = Some 400%Z /\ owed c st 400%Z 7%N.
+Proof.
+  cbv zeta. split; [unfold cfg_wf, cfg_ex; cbn; split; discriminate|].
+  split; [vm_compute; reflexivity|]. split; [vm_compute; reflexivity|].
+  eexists _, _, _. split; [vm_compute; reflexivity|]. split; [reflexivity|]. split; [vm_compute; discriminate | exact I].
+Qed.
+
+Print Assumptions C16_safety.
+Print Assumptions C16_liveness_pass_pending_partial.
+Print Assumptions C16_liveness_tick_partial.
+Print Assumptions C16_liveness_pass_requests_partial.
+Print Assumptions C16_liveness_notify_requests_partial.
